@@ -1281,3 +1281,105 @@ func ruleC09NoLiteralShortcut(c *Ctx) {
 	}
 	c.Check(len(why) == 0, "c09.no-literal-shortcut", "reader", c.P.Pos(parser.Pos()), fmt.Sprintf("%d functions pass a selector text on to the parser; none uses it as a literal key of the data", n), strings.Join(uniq(why), "; "))
 }
+
+func init() { register("C09", ruleC09EachOnlyForIndex) }
+
+// ruleC09EachOnlyForIndex: `each` is an index selector whose index is -1; a range uses -1 for `begin` and `end`. A condition
+// over two functions: the evaluator may test for `each` before it looks at the selector's kind only if no range selector is
+// ever built with a value in its index field.
+func ruleC09EachOnlyForIndex(c *Ctx) {
+	c.Doc("c09.each-only-for-index", "the `each` test of the dimension walker (index == -1) is made under the INDEX arm of the selector-kind dispatch, or no constructor of a RANGE selector stores anything into the index field: otherwise `(begin:n)` -- begin is -1 -- iterates the whole dimension instead of slicing it")
+	consts := c.P.enumConsts(modPath, "IndexType")
+	var rangeV int64 = -1
+	for v, n := range consts {
+		if n == "RANGE" {
+			rangeV = v
+		}
+	}
+	var walker *ssa.Function
+	for _, f := range c.P.pkgFuncs(modPath) {
+		if f.Parent() == nil && paramOfType(f, "[]*IndexSelector") != nil && (walker == nil || selfCalls(f)) {
+			walker = f
+		}
+	}
+	if walker == nil || rangeV < 0 {
+		c.Unknown("c09.each-only-for-index", "SelectDimension", "-", "anchor lost: no function over []*IndexSelector (or no RANGE constant)")
+		return
+	}
+	key := c.P.funcKey(walker)
+	c.Fn(key)
+	tb := NewTB()
+	// the each tests: comparisons of the selector's index with -1, in the walker and in whatever it calls in the module
+	unguarded := ""
+	n := 0
+	deepInstrs(walker, func(_ *ssa.Function, _ *TB, b *ssa.BasicBlock, in ssa.Instruction) {
+		bo, ok := in.(*ssa.BinOp)
+		if !ok || (bo.Op != token.EQL && bo.Op != token.NEQ) {
+			return
+		}
+		k, isK := constIntOf(bo.Y)
+		if !isK || k != -1 {
+			return
+		}
+		xt := tb.Of(bo.X).String()
+		if !strings.Contains(xt, "GetIndex(") && !strings.Contains(xt, ".indexSelector") {
+			return
+		}
+		n++
+		under := false
+		for _, fc := range factsAt(b) {
+			if ct := tb.Of(fc.cond).String(); strings.Contains(ct, "GetType(") || strings.Contains(ct, ".selectorType") {
+				under = true
+			}
+		}
+		if !under {
+			unguarded = c.P.Pos(bo.Pos())
+		}
+	})
+	if n == 0 {
+		// `each` recognised some other way (a flag, a kind of its own): nothing for this rule to decide
+		c.PassTrivial("c09.each-only-for-index", key, c.P.Pos(walker.Pos()), "the dimension walker does not recognise `each` by comparing an index with -1")
+		return
+	}
+	// range selectors built with an index: a record whose selectorType is stored as RANGE and whose indexSelector is stored too
+	withIndex := ""
+	for _, f := range c.P.pkgFuncs(modPath) {
+		allInstrs(f, func(_ *ssa.BasicBlock, in ssa.Instruction) {
+			al, ok := in.(*ssa.Alloc)
+			if !ok || shortType(al.Type()) != "*IndexSelector" || al.Referrers() == nil {
+				return
+			}
+			isRange, hasIndex := false, false
+			for _, r := range *al.Referrers() {
+				fa, isFA := r.(*ssa.FieldAddr)
+				if !isFA || fa.Referrers() == nil {
+					continue
+				}
+				for _, rr := range *fa.Referrers() {
+					st, isSt := rr.(*ssa.Store)
+					if !isSt || st.Addr != ssa.Value(fa) {
+						continue
+					}
+					switch fieldName(fa.X.Type(), fa.Field) {
+					case "selectorType":
+						if v, isC := constIntOf(st.Val); isC && v == rangeV {
+							isRange = true
+						}
+					case "indexSelector":
+						if v, isC := constIntOf(st.Val); !isC || v != 0 {
+							hasIndex = true
+						}
+					}
+				}
+			}
+			if isRange && hasIndex {
+				withIndex = c.P.funcKey(f) + " builds a RANGE selector with a value in its index field at " + c.P.Pos(al.Pos())
+			}
+		})
+	}
+	why := ""
+	if unguarded != "" && withIndex != "" {
+		why = "the `each` test at " + unguarded + " is made before the selector's kind is known, and " + withIndex + ": a range that starts at `begin` (-1) is taken for `each`"
+	}
+	c.Check(why == "", "c09.each-only-for-index", key, c.P.Pos(walker.Pos()), fmt.Sprintf("%d each tests: under the kind dispatch, or ranges carry no index", n), why)
+}
